@@ -3,12 +3,16 @@
    POLLERR on stdin -- establishes); the argument handed to poll() is always within 0..i32::MAX ms for
    every duration; a timed-out call leaves the communicator resumable with nothing lost or repeated
    (C04_resume_exact is the byte invariant across arbitrary histories of timed-out and successful calls).
-   PARTIAL: the two quantitative statements (returns no later than t + one I/O step; TimedOut only after t
-   has elapsed to ms granularity) are not proved in Coq yet; they are checked by the E1 monitors on the
-   real code under the virtual clock. *)
+   C04_timeout_truthful: in the closed system with K's clock (every call takes an arbitrary duration, a poll
+   that finds nothing ready returns no earlier than its timeout) TimedOut is returned only when less than one
+   millisecond is missing to the deadline, the deadline being the call's first clock reading plus the limit.
+   PARTIAL: "returns no later than t plus one bounded I/O step" is not a theorem (with adversarial call
+   durations it is a statement about the number of calls after the deadline; the overflow loop of
+   posix::poll makes that number depend on the durations); it is checked by the E1 monitors on the real code
+   under the virtual clock. *)
 From Coq Require Import List NArith ZArith Bool.
 Require Import SP.Params SP.Lib.Comm SP.Kernel.CommK SP.Kernel.CommSys
-               SP.Proofs.CommBase SP.Proofs.CommReady SP.Proofs.CommInv SP.Proofs.CommTerm SP.Proofs.CommThms.
+               SP.Proofs.CommBase SP.Proofs.CommReady SP.Proofs.CommInv SP.Proofs.CommTerm SP.Proofs.CommThms SP.Proofs.CommTime.
 Import ListNotations.
 
 Theorem C04_never_timeout_without_limit :
@@ -52,6 +56,23 @@ Theorem C04_restart_after_any_return :
   forall g lim tl g', Inv g -> gstep g (GStart lim tl) = Some g' -> Inv g'.
 Proof. intros g lim tl g'. apply inv_step. Qed.
 Print Assumptions C04_restart_after_any_return.
+
+(* a timeout is reported only if the limit has really elapsed, to the millisecond granularity of the OS wait *)
+Theorem C04_timeout_truthful :
+  forall pi po pe ci co ce child input lim tl chs g,
+    (PIPE_BUF <= ci)%nat -> (PIPE_BUF <= co)%nat -> (PIPE_BUF <= ce)%nat ->
+    grun (ginit pi po pe ci co ce child input lim tl) chs = Some g ->
+    ga g = Ret (Some ETimedOut) ->
+    forall d, deadline (gl g) = Some d -> (d < now (gw g) + 1000000)%N.
+Proof. exact timeout_truthful. Qed.
+Print Assumptions C04_timeout_truthful.
+
+Theorem C04_deadline_is_start_plus_limit :
+  forall g k zone dur g' tl,
+    pc (gl g) = PStart tl -> ga g = Call KClock -> gstep g (GParent k zone dur) = Some g' ->
+    deadline (gl g') = Some (now (gw g) + dur + tl)%N.
+Proof. exact deadline_is_start_plus_limit. Qed.
+Print Assumptions C04_deadline_is_start_plus_limit.
 
 Example C04_nonvacuous :
   let g0 := ginit false true false 4096 4096 4096 [CSleep 5000000; CWrite SOut [5;6]%N] [] None (Some 1000000%N) in
